@@ -639,11 +639,27 @@ class Runner:
                 self.fail.append((f"state_dict-raises:{name}:{type(e).__name__}", f"{name}.state_dict() raises {e!r}", {"config": cfg}))
                 continue
             rec = Recording(copy.deepcopy(sd))
+            pristine = allowed_canon(copy.deepcopy(sd))
             read_err = None
             try:
                 obj.load_state_dict(rec)  # loading one's own state is the identity when the pair is sound
             except Exception as e:
                 read_err = f"{type(e).__name__}:{e}"
+            if read_err is None:
+                # input immutability: load_state_dict must not write into the dictionary it was handed, and the
+                # object must report the same state afterwards (state_dict is a pure read)
+                try:
+                    if allowed_canon(dict(rec)) != pristine:
+                        d = (all_diffs(pristine, allowed_canon(dict(rec))) or ["?"])[0]
+                        self.fail.append((f"load_state_dict-mutates-input:{name}", f"{name}.load_state_dict wrote into the dictionary it was given: {d}",
+                                          {"kind": type(algo).__name__, "config": cfg}))
+                    again = allowed_canon(obj.state_dict())
+                    if again != pristine:
+                        d = (all_diffs(pristine, again) or ["?"])[0]
+                        self.fail.append((f"state-not-idempotent:{name}", f"{name}: state_dict() after loading its own state differs: {d}",
+                                          {"kind": type(algo).__name__, "config": cfg}))
+                except NotInUniverse:
+                    pass
             key = (name, tuple(holding))
             if key not in self.checked_classes:
                 self.checked_classes.add(key)
